@@ -356,10 +356,12 @@ func c01Guards(c *Ctx, rule string) {
 			if b, ok := f.V.(*ssa.BinOp); ok && b.Op == token.LSS && f.Truth && isBuiltinCall(b.X, "len") != nil {
 				return true // found key shorter than the marker
 			}
-			if call := isCallToFunc(f.V, "bytes", "Equal"); call != nil && !f.Truth {
-				for x := range backSlice(call, nil) {
-					if s, ok := stringConst(x); ok && strings.HasPrefix(s, "\x00") {
-						return true
+			for _, fnm := range []string{"Equal", "HasPrefix"} {
+				if call := isCallToFunc(f.V, "bytes", fnm); call != nil && !f.Truth {
+					for x := range backSlice(call, nil) {
+						if s, ok := stringConst(x); ok && strings.HasPrefix(s, "\x00") {
+							return true
+						}
 					}
 				}
 			}
@@ -682,11 +684,27 @@ func c01WildFlag(c *Ctx) {
 	}
 }
 
-// c01TypeFilter: the two row callbacks compare the same pairs.
+// c01TypeFilter: the two row callbacks select the same rows, and the rows the property prescribes.
+//
+// The row type and the query type are touched by the callbacks only through equality comparisons, so the selection
+// is a function of a finite abstraction: row type ∈ {A, AAAA, CNAME, two other types}, query type ∈ the same ∪ {ANY}.
+// For every pair the rule computes, from the path conditions of the callback's CFG, whether the weighted sampler
+// (Wrs.Add) and whether the direct append to the answer section can be reached, and compares with the statement:
+// a row is selected iff it is a CNAME, or of the queried type, or the query is ANY; selected A/AAAA rows go to the
+// sampler, every other selected row is appended. Conditions on anything else (errors, wildcard mismatch) are taken
+// as satisfiable. This is robust against the spelling of the filter (if-chain, guard clause, switch) and it is
+// polarity-aware (a flipped or dropped comparison changes the table).
 func c01TypeFilter(c *Ctx) {
 	rule := "C01.typefilter"
-	c.Rule(rule, "A9: the row callbacks of both FindAnswer implementations select rows by the same comparisons — (row type, CNAME), (row type, query type), (query type, ANY) — and send (row type A / AAAA) to the weighted sampler")
-	sig := func(fn *ssa.Function) (map[string]bool, *ssa.Function) {
+	c.Rule(rule, "A9 + finite abstraction: in the row callbacks of both FindAnswer implementations, over row type × query type abstracted to the values the code compares with, the weighted sampler is reachable exactly for selected A/AAAA rows and the direct append exactly for selected rows of any other type, where selected = (row type is CNAME) ∨ (row type = query type) ∨ (query type is ANY); both implementations yield the same table")
+	type table struct {
+		sampler, appendRR map[[2]int64]bool
+		cl                *ssa.Function
+		unknownAtoms      int
+	}
+	rows := []int64{1, 28, 5, 16, 2}
+	qts := []int64{1, 28, 5, 16, 2, 255}
+	build := func(fn *ssa.Function) *table {
 		for _, cl := range fn.AnonFuncs {
 			has := false
 			for _, ci := range callInstrs(cl) {
@@ -697,7 +715,6 @@ func c01TypeFilter(c *Ctx) {
 			if !has {
 				continue
 			}
-			out := map[string]bool{}
 			describe := func(v ssa.Value) string {
 				if k, ok := constInt(v); ok {
 					return fmt.Sprintf("%d", k)
@@ -720,41 +737,127 @@ func c01TypeFilter(c *Ctx) {
 				}
 				return "?"
 			}
-			for _, b := range cl.Blocks {
-				for _, in := range b.Instrs {
-					bo, ok := in.(*ssa.BinOp)
-					if !ok || bo.Op != token.EQL {
+			t := &table{sampler: map[[2]int64]bool{}, appendRR: map[[2]int64]bool{}, cl: cl}
+			val := func(d string, row, qt int64) (int64, bool) {
+				switch {
+				case d == "row.Qtype":
+					return row, true
+				case strings.HasPrefix(d, "query."):
+					return qt, true
+				}
+				var k int64
+				if _, err := fmt.Sscanf(d, "%d", &k); err == nil {
+					return k, true
+				}
+				return 0, false
+			}
+			feasible := func(path []fact, row, qt int64) bool {
+				for _, f := range path {
+					bo, ok := f.V.(*ssa.BinOp)
+					if !ok || (bo.Op != token.EQL && bo.Op != token.NEQ) {
 						continue
 					}
-					a, bb := describe(bo.X), describe(bo.Y)
-					if a == "?" || bb == "?" {
+					a, okA := val(describe(bo.X), row, qt)
+					b, okB := val(describe(bo.Y), row, qt)
+					if !okA || !okB {
+						t.unknownAtoms++
 						continue
 					}
-					// is the sampler reached under this comparison?
-					out[a+"=="+bb] = true
+					holds := (a == b) == (bo.Op == token.EQL)
+					if holds != f.Truth {
+						return false
+					}
+				}
+				return true
+			}
+			fill := func(site ssa.Instruction, into map[[2]int64]bool) bool {
+				paths, ok := pathsTo(cl, site, 4096)
+				if !ok {
+					return false
+				}
+				for _, r := range rows {
+					for _, q := range qts {
+						for _, p := range paths {
+							if feasible(p, r, q) {
+								into[[2]int64{r, q}] = true
+								break
+							}
+						}
+					}
+				}
+				return true
+			}
+			nS, nA := 0, 0
+			for _, ci := range callInstrs(cl) {
+				if sf := ci.Common().StaticCallee(); sf != nil && sf.Name() == "Add" && sf.Signature.Recv() != nil && strings.HasSuffix(sf.Signature.Recv().Type().String(), "db.Wrs") {
+					nS++
+					if !fill(ci, t.sampler) {
+						return nil
+					}
 				}
 			}
-			return out, cl
+			for _, b := range cl.Blocks {
+				for _, in := range b.Instrs {
+					st, ok := in.(*ssa.Store)
+					if !ok {
+						continue
+					}
+					if fa, ok := st.Addr.(*ssa.FieldAddr); ok && fieldName(fa.X.Type(), fa.Field) == "Answer" {
+						nA++
+						if !fill(st, t.appendRR) {
+							return nil
+						}
+					}
+				}
+			}
+			if nS == 0 || nA == 0 {
+				return nil
+			}
+			return t
 		}
-		return nil, nil
+		return nil
 	}
-	a, clA := sig(c.Func("db", "(*DataReader).FindAnswer"))
-	b, clB := sig(c.Func("db", "(*sortedDataReader).FindAnswer"))
-	if a == nil || b == nil {
-		c.Undecided(rule, "row-callbacks", token.NoPos, "row callbacks not found")
-		return
+	render := func(m map[[2]int64]bool) string {
+		var out []string
+		for _, r := range rows {
+			s := fmt.Sprintf("row %d:", r)
+			for _, q := range qts {
+				if m[[2]int64{r, q}] {
+					s += fmt.Sprintf(" q%d", q)
+				}
+			}
+			out = append(out, s)
+		}
+		return strings.Join(out, "; ")
 	}
-	c.Examined(clA)
-	c.Examined(clB)
-	ka, kb := keysOf(a), keysOf(b)
-	c.Check(rule, "FindAnswer|siblings-compare-the-same-pairs", strings.Join(ka, ",") == strings.Join(kb, ","), clA.Pos(), fmt.Sprintf("label-by-label: %v; closest-key: %v", ka, kb))
-	for _, want := range []struct{ k, why string }{
-		{"row.Qtype==5", "a CNAME at the name answers any query type"},
-		{"row.Qtype==query.qtype", "rows of the queried type"},
-		{"query.qtype==255", "ANY selects every row"},
-		{"row.Qtype==1", "A rows go to the weighted sampler"},
-		{"row.Qtype==28", "AAAA rows go to the weighted sampler"},
-	} {
-		c.Check(rule, "FindAnswer|compares|"+want.k, a[want.k] && b[want.k], clA.Pos(), want.why)
+	var tabs []*table
+	for _, name := range []string{"(*DataReader).FindAnswer", "(*sortedDataReader).FindAnswer"} {
+		fn := c.Func("db", name)
+		t := build(fn)
+		if t == nil {
+			c.Undecided(rule, fnName(fn)+"|row-callback", fn.Pos(), "row callback (ExtractRRFromRow + sampler + append to the answer) not found or too many paths")
+			continue
+		}
+		c.Examined(t.cl)
+		tabs = append(tabs, t)
+		okS, okA := true, true
+		for _, r := range rows {
+			for _, q := range qts {
+				sel := r == 5 || r == q || q == 255
+				addr := r == 1 || r == 28
+				if t.sampler[[2]int64{r, q}] != (sel && addr) {
+					okS = false
+				}
+				if t.appendRR[[2]int64{r, q}] != (sel && !addr) {
+					okA = false
+				}
+			}
+		}
+		c.Check(rule, fnName(fn)+"|sampler-for-selected-address-rows", okS, t.cl.Pos(), "Wrs.Add reachable for (row type, query type): "+render(t.sampler)+" — expected exactly A/AAAA rows that are of the queried type or queried with ANY")
+		c.Check(rule, fnName(fn)+"|append-for-other-selected-rows", okA, t.cl.Pos(), "append to the answer reachable for: "+render(t.appendRR)+" — expected exactly non-address rows that are CNAME, of the queried type, or queried with ANY")
+	}
+	if len(tabs) == 2 {
+		same := render(tabs[0].sampler) == render(tabs[1].sampler) && render(tabs[0].appendRR) == render(tabs[1].appendRR)
+		c.Check(rule, "FindAnswer|siblings-select-the-same-rows", same, tabs[0].cl.Pos(), "the label-by-label and the closest-key reader select the same rows for every (row type, query type)")
 	}
 }
